@@ -623,7 +623,7 @@ fn load_key_path(p: &str) -> PrivateKeyDer<'static> {
     k
 }
 
-fn acceptor_client_auth() -> TlsAcceptor {
+pub fn acceptor_client_auth() -> TlsAcceptor {
     let mut roots = RootCertStore::empty();
     roots
         .add(load_cert_path(&format!("{CERT_DIR}/ca.pem")))
@@ -726,7 +726,7 @@ fn client_rt() -> tokio::runtime::Runtime {
         .unwrap()
 }
 
-fn key_files(key: &str) -> (String, String) {
+pub fn key_files(key: &str) -> (String, String) {
     if key == "rsa_pkcs8" {
         (
             format!("{CERT_DIR}/client.pem"),
@@ -1005,7 +1005,7 @@ fn repo_target() -> PathBuf {
     }
 }
 
-fn build_agent(sink: &mut Sink) -> Option<PathBuf> {
+pub fn build_agent(sink: &mut Sink) -> Option<PathBuf> {
     let repo = std::env::var("VERIF_REPO").unwrap_or_else(|_| "/repo".into());
     let st = Command::new("cargo")
         .args([
